@@ -84,7 +84,19 @@ func C10Base(t *rapid.T) *world.Scenario {
 			st.Req.Uncond.NilHeader = true
 			continue
 		}
-		switch Weighted(t, lbl, 60, 10, 10, 10, 10) {
+		if len(st.Req.Header) == 0 && Pct(t, lbl+"-nilreqhdr", 4) {
+			// http.Request{Method: "GET", URL: u}: a valid request without a header map
+			st.Req.NilReqHeader = true
+		}
+		switch Weighted(t, lbl, 60, 10, 10, 10, 10, 6) {
+		case 5:
+			// every byte of the body arrives, then Close reports an error
+			st.Req.Uncond.Body.CloseErr = true
+			if st.Req.Cond != nil && st.Req.Cond.Status != 304 && Pct(t, lbl+"-closeerr-cond", 50) {
+				c := *st.Req.Cond
+				c.Body.CloseErr = true
+				st.Req.Cond = &c
+			}
 		case 1:
 			st.Req.Cond = &world.Reply{Kind: "err"}
 		case 2:
@@ -104,6 +116,17 @@ func C10Base(t *rapid.T) *world.Scenario {
 		for _, st := range sc.Steps {
 			if st.Op == "req" {
 				st.Req.URL = strings.Replace(st.Req.URL, "a.test", host, 1)
+			}
+		}
+	}
+	// URLs that are no absolute http(s) URIs: whatever the upstream makes of them, the
+	// cache neither panics nor invents an answer
+	if Pct(t, "noscheme", 4) {
+		how := Pick(t, "noschemev", "//a.test", "", "a.test")
+		for _, st := range sc.Steps {
+			if st.Op == "req" {
+				st.Req.URL = strings.Replace(st.Req.URL, "http://a.test", how, 1)
+				st.Req.OpaqueForm, st.Req.DialVia = 0, ""
 			}
 		}
 	}
